@@ -377,7 +377,7 @@ def analyse(mod, run, label):
         if bad:
             r, qpos, p, S, d = bad[0]
             what = "%s can write up to %r bytes but %s promises %r (for count = %s: bound %r, promised %r)" % (enc, p, sname, size, ("%d*q + %d, q >= 1" % (M, r)) if qpos else str(r), S - d, S)
-        if size.atoms() and any(isinstance(a, tuple) and a[0] == "call" and a[1].startswith(sname[:12]) for a in size.atoms()):
+        if size.atoms() and any(isinstance(a, tuple) and a[0] == "call" for a in size.atoms()):          # (an uninterpreted call: the promise itself was not evaluated)
             run.defer_broken("Z2 %s: the sizing function %s is not an exact arithmetic expression of its parameters (conditional or loop inside)" % (enc, sname)); nmax -= 1; continue
         if bad and not opts.get("tight", True):
             # the engine's bound for this encoder is not attained (it charges the worst case of every part at once), so failing to prove is not a verdict
